@@ -370,10 +370,14 @@ class Interp:
         from .lpmodel import Unsupported as U1
         from .framemodel import Unsupported as U2
 
+        from .framemodel import LibTypeError
+
         try:
             out = target(*args, **kwargs)
         except (U1, U2) as exc:
             raise Unknown(f"outside the model: {exc}")
+        except LibTypeError:
+            raise EvalRaise("TypeError", node)
         except KeyError:
             raise EvalRaise("KeyError", node)
         except ValueError:
